@@ -683,6 +683,7 @@ def run(res, tier):
     res.rule("SC-11", "column-count arguments (declared names containing `col` / `rank`) of size queries, bytes_of and takes are not integer literals >= 2")
     res.rule("SC-12", "an operation dispatching between scratch-consuming routines on quantities its query also receives is mirrored by a query deciding on the same quantities at the top level")
     res.rule("SC-14", "a size query with a `threads` parameter multiplies its per-thread query by that parameter itself")
+    res.rule("SC-15", "a scratch view `take_T(infos)` has the dimensions (ring degree, rows, columns) that `T::alloc` gives the owned object of the same layout")
     res.rule("SC-13", "a per-thread length handed to split_mut contains no bare LWE-sized term (not a multiple of the scratch alignment)")
     res.rule("SC-7", "at a size-query call site, a usize argument that the caller knows under the name of one of the query's declared parameters (trait declaration names; the caller's own parameters take the names of its trait declaration) sits in that parameter's position")
     res.rule("SC-6", "a temporary created from a layout literal and handed to a nested operation is declared, in the companion, by the nested query evaluated on a literal with equal fields under the parameter correspondence")
@@ -714,6 +715,8 @@ def run(res, tier):
         res.floor("SC-12", "dispatching operations", n12, 1)
         n14 = sc14(p, res)
         res.floor("SC-14", "size queries with a threads parameter", n14, 1)
+        n15 = sc15(p, res)
+        res.floor("SC-15", "scratch views with an allocating sibling", n15, 7)
         n13 = sc13(p, res)
         res.floor("SC-13", "split_mut sites", n13, 2)
         n7 = sc7(p, res)
@@ -832,6 +835,65 @@ def sc13(p, res):
 
 
 # ------------------------------------------------------------------ SC-14
+def sc15(p, res):
+    """take / alloc agreement: `ScratchTakeCore::take_T(infos)` carves a view whose dimensions other than the limb count (coefficients per polynomial, rows, columns) are the
+    expressions `T::alloc(n, base2k, k, ..)` hands to the allocator of the same storage type, read through the accessors of `infos` (`infos.n()` for the parameter `n`, ...).
+    A view with other dimensions than the owned object of the same layout cannot hold the same ciphertext (an LWE view of n instead of n + 1 coefficients, a matrix with fewer rows)."""
+    import re
+    n = 0
+    allocs = {}
+    for f in p.lib_fns():
+        if f.kind != "Closure" and f.blocks and f.name == "alloc" and f.uid.startswith("poulpy_core::layouts::") and "compressed" not in f.uid and "prepared" not in f.uid:
+            m = re.search(r"::(\w+)::<", f.pretty) or re.search(r"::(\w+)::alloc$", f.pretty)
+            sym = Sym(f, Flow(f))
+            pn = f.param_names()
+            for bi, t in f.calls():
+                d = f.callee_def(t) or {}
+                if d.get("n") == "alloc" and "poulpy_hal" in d.get("p", ""):
+                    dims = []
+                    for a in t["a"][:-1]:
+                        txt = repr(sym.operand(a))
+                        txt = re.sub(r"arg(\d+)(\.0)?", lambda mm: pn.get(int(mm.group(1)), "?"), txt)
+                        dims.append(txt)
+                    if m:
+                        allocs[m.group(1)] = (f, dims, (d.get("p", "").split("::")[-3] if "::" in d.get("p", "") else ""))
+    def snake(x):
+        return re.sub(r"(?<=[a-z0-9])(?=[A-Z])", "_", re.sub(r"([A-Z]+)([A-Z][a-z])", r"\1_\2", x)).lower()
+    by_take = {"take_" + snake(k): v for k, v in allocs.items()}
+    for f in sorted(p.lib_fns(), key=lambda x: x.uid):
+        if not (f.uid.startswith("poulpy_core::scratch::") and f.name in by_take and f.kind != "Closure" and f.blocks):
+            continue
+        sym = Sym(f, Flow(f))
+        inner = [(bi, t) for bi, t in f.calls() if (f.callee_def(t) or {}).get("n") in ("take_vec_znx", "take_mat_znx", "take_scalar_znx")]
+        if len(inner) != 1:
+            continue
+        n += 1
+        af, adims, _ = by_take[f.name]
+        tdims = []
+        for a in inner[0][1]["a"][1:-1] if (f.callee_def(inner[0][1]) or {}).get("n") != "take_scalar_znx" else inner[0][1]["a"][1:]:
+            txt = repr(sym.operand(a))
+            txt = re.sub(r"(\w+)\(arg\d+\)", r"\1", txt)
+            pn = f.param_names()
+            txt = re.sub(r"arg(\d+)", lambda mm: pn.get(int(mm.group(1)), "?"), txt)
+            tdims.append(txt)
+        if (f.callee_def(inner[0][1]) or {}).get("n") == "take_scalar_znx":
+            adims_c = adims + []  # ScalarZnx::alloc(n, cols) has no limb argument: all of its arguments are dimensions
+            af_call = [t for bi, t in af.calls() if (af.callee_def(t) or {}).get("n") == "alloc" and "poulpy_hal" in (af.callee_def(t) or {}).get("p", "")][0]
+            asym = Sym(af, Flow(af))
+            apn = af.param_names()
+            adims_c = [re.sub(r"arg(\d+)(\.0)?", lambda mm: apn.get(int(mm.group(1)), "?"), repr(asym.operand(a))) for a in af_call["a"]]
+        else:
+            adims_c = adims
+        norm = lambda xs: [re.sub(r"call@bb\d+", "call", x) for x in xs]
+        if norm(tdims) == norm(adims_c):
+            res.ok("SC-15", {"take": f.pretty, "dims": tdims})
+        else:
+            res.bad("SC-15", f.pretty, "take-alloc-dimensions",
+                    "%s carves a view with dimensions (%s) where %s allocates (%s) for the same layout: the scratch view is not the object its layout describes"
+                    % (f.pretty, ", ".join(tdims), af.pretty, ", ".join(adims_c)), site=f.where())
+    return n
+
+
 def sc14(p, res):
     """multi-threaded size queries: the operation carves `threads` windows (split_mut(threads, len), preceded by an assertion on `threads * len`) whatever the number of work
     items, so a size query with a `threads` parameter has to multiply its per-thread query by that very parameter - not by a count derived from it"""
